@@ -356,6 +356,7 @@ struct Substrate {
   std::vector<TamperEvent> events;
   bool enumerate = false;
   bool light = false;  // few random plans (many tiny substrates of one family)
+  bool byz_space = false;  // every plan regenerates the stream (F_BYZ)
   bool tamper_enum = false;
   uint64_t n_enum = 0, n_tamper = 0, n_random = 0;
   uint64_t first = 0;  // first run index
@@ -694,6 +695,7 @@ std::vector<Workload> CuratedWorkloads() {
     g.type = draco::GeometryAttribute::GENERIC;
     g.dt = draco::DT_INT32;
     g.nc = 1 + k;
+    g.vals = 3;
     w.atts.push_back(g);
     w.expert = 1;
     w.builtin = 0;
@@ -821,6 +823,7 @@ struct Tier {
   uint64_t random_large;    // ... per large substrate
   int gen_s, gen_m, gen_l;  // seed-dependent generated substrates
   int byz = 0;              // Byzantine Edgebreaker writer instances
+  uint64_t byz_space = 0;   // plans that replace the stream by a fresh instance
   uint64_t tamper_max_events;
   uint64_t tamper_sample;
   uint64_t corpus_max_len;  // corpus files above this are skipped
@@ -839,6 +842,7 @@ Tier TierConfig(const std::string &tier) {
     t.gen_m = 160;
     t.gen_l = 12;
     t.byz = 2500;
+    t.byz_space = 6000000;
     t.tamper_max_events = 6000;
     t.tamper_sample = 2000;
     t.corpus_max_len = 1u << 20;
@@ -855,6 +859,7 @@ Tier TierConfig(const std::string &tier) {
     t.gen_m = 1;
     t.gen_l = 0;
     t.byz = 4;
+    t.byz_space = 2000;
     t.tamper_max_events = 300;
     t.tamper_sample = 50;
     t.corpus_max_len = 4096;
@@ -871,6 +876,7 @@ Tier TierConfig(const std::string &tier) {
     t.gen_m = 4;
     t.gen_l = 0;
     t.byz = 120;
+    t.byz_space = 400000;
     t.tamper_max_events = 1500;
     t.tamper_sample = 400;
     t.corpus_max_len = 16384;
@@ -1067,10 +1073,24 @@ class Batch {
       w.atts.push_back(pos);
       ws.push_back(w);
     }
+    // One more: the carrier of the F_BYZ plans (its own bytes are the valid
+    // reference quad; every plan replaces them by a fresh instance).
+    size_t byz_space_index = ws.size();
+    if (tier_.byz_space) {
+      Workload w;
+      w.kind = 0;
+      w.n = 1;
+      w.legacy = 5;
+      w.gseed = 0;
+      AttDesc pos;
+      w.atts.push_back(pos);
+      ws.push_back(w);
+    }
     for (size_t i = 0; i < ws.size(); ++i) {
       Substrate s;
       s.w = ws[i];
       s.light = s.w.legacy == 5;
+      s.byz_space = tier_.byz_space && i == byz_space_index;
       s.ok = EncodeSubstrate(s.w, nullptr, &s.bytes, &s.events, nullptr, &s.err);
       if (!s.ok) {
         rejected_.push_back(s.w.ToJson().Dump() + ": " + s.err);
@@ -1094,6 +1114,12 @@ class Batch {
       }
       s.n_random = s.enumerate ? tier_.random_small : tier_.random_large;
       if (s.light) s.n_random = 60;
+      if (s.byz_space) {
+        s.enumerate = false;
+        s.n_enum = 0;
+        s.n_tamper = 0;
+        s.n_random = tier_.byz_space;
+      }
       s.first = idx;
       idx += s.total();
     }
@@ -1152,6 +1178,18 @@ class Batch {
       if (!s.tamper_enum && r.Chance(1, 5)) {
         std::vector<const std::vector<uint8_t> *> none;
         std::vector<FaultOp> more = RandomFaultPlan(r.Fork("tamper+"), len, none);
+        if (!more.empty()) p.faults.push_back(more[0]);
+      }
+    } else if (s.byz_space) {
+      j -= s.n_tamper;
+      FaultOp op;
+      op.kind = F_BYZ;
+      op.a = static_cast<int64_t>(r.Next() >> 2);
+      op.b = (j % 5) == 0 ? 0 : 1;
+      p.faults.push_back(op);
+      if (r.Chance(1, 6)) {
+        std::vector<const std::vector<uint8_t> *> none;
+        std::vector<FaultOp> more = RandomFaultPlan(r.Fork("byz+"), 48, none);
         if (!more.empty()) p.faults.push_back(more[0]);
       }
     } else {
